@@ -214,4 +214,70 @@ def artifactTrace (F : Nat) (i : Nat) (s : SNode V) : Graph V → List Nat → L
   | g, d :: ds, vals =>
     (fun g => (Eval F g d).1) :: artifactTrace F i s (Eval F g d).1 ds (vals ++ [val (Eval F g d).1 d])
 
+/-! ### the fine-grained locked system WITH histories: critical sections are many micro-steps -/
+
+inductive FPc (V : Type) where
+  | idle
+  | invoked (id : Nat) (c : Call V)
+  | crit (id : Nat) (c : Call V) (start : Graph V) (trace : List (Graph V → Graph V))
+  | unlocked (id : Nat) (c : Call V) (r : Resp V)
+
+structure FSys (V : Type) where
+  g : Graph V
+  lock : Option Tid
+  pc : Tid → FPc V
+  next : Nat
+  hist : List (Event V)
+  lin : List (LOp V)
+
+def FSys.init (g0 : Graph V) : FSys V :=
+  { g := g0, lock := none, pc := fun _ => .idle, next := 0, hist := [], lin := [] }
+
+/-- one step of one client.  `micro`: the lock owner applies ANY transformer to the shared state
+    (only a client in `crit` can; that is what the lock facts establish for the Go functions).
+    `finish`: the owner's micro-steps composed are the sequential effect of its call (for `Artifact`
+    this is `artifactTrace_eval`; `update`/`paramData` are a single step); it returns the
+    sequential response and the deferred `Unlock` runs. -/
+inductive FStep (F : Nat) : FSys V → FSys V → Prop
+  | invoke (s : FSys V) (t : Tid) (c : Call V) : s.pc t = .idle →
+      FStep F s ({ s with pc := upd s.pc t (.invoked s.next c), next := s.next + 1,
+                          hist := s.hist ++ [.inv s.next t c] } : FSys V)
+  | acquire (s : FSys V) (t : Tid) (id : Nat) (c : Call V) : s.pc t = .invoked id c → s.lock = none →
+      FStep F s ({ s with lock := some t, pc := upd s.pc t (.crit id c s.g []) } : FSys V)
+  | micro (s : FSys V) (t : Tid) (id : Nat) (c : Call V) (start : Graph V) (tr : List (Graph V → Graph V))
+      (f : Graph V → Graph V) : s.pc t = .crit id c start tr →
+      FStep F s ({ s with g := f s.g, pc := upd s.pc t (.crit id c start (tr ++ [f])) } : FSys V)
+  | finish (s : FSys V) (t : Tid) (id : Nat) (c : Call V) (start : Graph V) (tr : List (Graph V → Graph V)) :
+      s.pc t = .crit id c start tr → tr.foldl (fun a f => f a) start = (seqStep F start c).1 →
+      FStep F s ({ s with lock := none, pc := upd s.pc t (.unlocked id c (seqStep F start c).2),
+                          lin := s.lin ++ [⟨id, t, c, (seqStep F start c).2⟩] } : FSys V)
+  | respond (s : FSys V) (t : Tid) (id : Nat) (c : Call V) (r : Resp V) : s.pc t = .unlocked id c r →
+      FStep F s ({ s with pc := upd s.pc t .idle, hist := s.hist ++ [.resp id r] } : FSys V)
+
+inductive FExec (F : Nat) (g0 : Graph V) : FSys V → Prop
+  | init : FExec F g0 (FSys.init g0)
+  | step {s s' : FSys V} : FExec F g0 s → FStep F s s' → FExec F g0 s'
+
+def FPc.isCrit : FPc V → Bool
+  | .crit _ _ _ _ => true
+  | _ => false
+
+def FPc.start? : FPc V → Option (Graph V)
+  | .crit _ _ start _ => some start
+  | _ => none
+
+/-- abstraction to the atomic system: a client inside its critical section is `holding` (its
+    critical section has not happened yet), and the shared state is the one the owner found -/
+def FPc.abs : FPc V → Pc V
+  | .idle => .idle
+  | .invoked id c => .invoked id c
+  | .crit id c _ _ => .holding id c
+  | .unlocked id c r => .unlocked id c r
+
+def FSys.abs (s : FSys V) : Sys V :=
+  { g := match s.lock with
+         | some t => ((s.pc t).start?).getD s.g
+         | none => s.g,
+    lock := s.lock, pc := fun u => (s.pc u).abs, next := s.next, hist := s.hist, lin := s.lin }
+
 end PolyVerif.Linz
